@@ -153,6 +153,7 @@ type callRec struct {
 	nilItem    bool
 	err        error
 	ran        bool // its own closure was executed
+	item       *cache.Item[int] // what Memoize handed out (kept and read again at the end of the case)
 }
 
 func prop(c Case, r *pbt.R) error {
@@ -216,11 +217,25 @@ func prop(c Case, r *pbt.R) error {
 			rec.nilItem = it == nil
 			if it != nil {
 				rec.val = it.Val()
+				rec.item = it
 			}
 			calls[i] = rec
 		}()
 	}
 	wg.Wait()
+
+	// Epilogue: what a caller received stays what it was. Let every finite entry expire, purge, memoize another key (so
+	// that the cache stores again) and read every item handed out earlier once more.
+	time.Sleep(200 * time.Millisecond)
+	m.Cache.DeleteExpired()
+	if _, err := m.Memoize("another-key", func() (*cache.Item[int], error) { return mkItem(424242), nil }); err != nil {
+		return fmt.Errorf("%v: Memoize of a fresh key after the timeline failed: %v", c, err)
+	}
+	for i, cr := range calls {
+		if cr.item != nil && cr.err == nil && cr.item.Val() != cr.val {
+			return fmt.Errorf("%v: call #%d (%s) received the value %d; after the entries expired, were purged and another key was memoized, the item it holds reads %d", c, i, keyNames[cr.key], cr.val, cr.item.Val())
+		}
+	}
 
 	if overlap.Load() > 0 {
 		return fmt.Errorf("%v: two executions of the function for one key were in progress at the same time", c)
@@ -679,6 +694,53 @@ func zeroProp(c ZeroCase, r *pbt.R) error {
 	return nil
 }
 
+// ---------------------------------------------------------------------------
+// volume: many distinct keys on one Memoizer (state that accumulates over many calls)
+
+type VolumeCase struct {
+	Keys   int `json:"keys"`
+	Expiry int `json:"expiry"` // 0: none, 1: one hour
+}
+
+func volumeProp(c VolumeCase, r *pbt.R) error {
+	n := c.Keys
+	if n < 1 || n > 20000 {
+		return nil
+	}
+	exp := time.Duration(cache.NoExpiration)
+	if c.Expiry%2 == 1 {
+		exp = time.Hour
+	}
+	m := gogu.NewMemoizer[string, int](exp, 0)
+	runs := make([]int, n)
+	ask := func(round int) error {
+		for k := 0; k < n; k++ {
+			k := k
+			it, err := m.Memoize(fmt.Sprintf("key-%d", k), func() (*cache.Item[int], error) { runs[k]++; return mkItem(10*k + 1), nil })
+			if err != nil || it == nil || it.Val() != 10*k+1 {
+				return fmt.Errorf("Memoizer(expiry %v) with %d distinct keys, round %d: Memoize(key-%d) = (%v, %v), want %d", exp, n, round, k, it.Val(), err, 10*k+1)
+			}
+		}
+		return nil
+	}
+	for round := 1; round <= 2; round++ {
+		if err := ask(round); err != nil {
+			return err
+		}
+	}
+	again := 0
+	for _, x := range runs {
+		if x != 1 {
+			again++
+		}
+	}
+	if again > 0 {
+		return fmt.Errorf("Memoizer(expiry %v): %d distinct keys memoized and asked for again at once: the function of %d keys did not run exactly once (values are cached and not expired)", exp, n, again)
+	}
+	r.NonTrivialIf(n >= 1000, ">= 1000 keys")
+	return nil
+}
+
 func TestProp(t *testing.T) {
 	pbt.Run(t, "C17",
 		&pbt.Check[Case]{
@@ -697,6 +759,19 @@ func TestProp(t *testing.T) {
 				"every caller receives exactly what its execution produced (the empty value without an invented error), errors are not cached, the first non-empty value is served from then on without running the function. " +
 				"Enumerated: 1..4 (thorough 6) calls x every outcome pattern of that length. Non-trivial = some execution produced the empty string.",
 			Enum: zeroEnum, Prop: zeroProp,
+		},
+		&pbt.Check[VolumeCase]{
+			Name: "volume",
+			Rule: "one Memoizer (expiry none / 1h), N distinct keys memoized one after the other and then all asked for again: every value is right and every function ran exactly once. N in {1, 100, 1023, 1024, 1025, 3000} (thorough also 10000). Non-trivial = N >= 1000.",
+			Fixed: []VolumeCase{{1, 0}, {100, 1}, {1023, 1}, {1024, 1}, {1025, 1}, {3000, 1}, {3000, 0}},
+			Gen: func(s pbt.Src, thorough bool) VolumeCase {
+				if thorough {
+					return VolumeCase{Keys: pbt.Pick(s, 513, 2049, 4097, 10000), Expiry: s.Intn(2)}
+				}
+				return VolumeCase{Keys: pbt.Pick(s, 513, 2049), Expiry: s.Intn(2)}
+			},
+			Prop: volumeProp, OutOfEnum: func(VolumeCase, bool) bool { return true },
+			RapidQuick: 2, RapidThorough: 6,
 		},
 		&pbt.Check[FreeCase]{
 			Name: "free",
